@@ -35,11 +35,11 @@ SOURCE_SITES = [
     dict(name='genRcOpenCount', file='scales/sink.py', func='RefCountedSink.Open', kind='final', var='self._ref_count',
          varmap=_RC_VARS, ghost=_RC_GHOST, params=['count', 'opens', 'closes'], obligation='open Scales.Shared'),
     dict(name='genRcOpenOpens', file='scales/sink.py', func='RefCountedSink.Open', kind='final', var='opens',
-         varmap=_RC_VARS, ghost=_RC_GHOST, params=['count', 'opens', 'closes'], obligation='theorem genRcOpen_eq (s : RC) (h : Nat) :\n    ((s.step (.ropen h)).1.count : Int) = genRcOpenCount s.count s.opens s.closes ∧\n    ((s.step (.ropen h)).1.opens : Int) = genRcOpenOpens s.count s.opens s.closes ∧\n    (s.step (.ropen h)).1.closes = s.closes := by\n  unfold RC.step genRcOpenCount genRcOpenOpens\n  by_cases hc : s.count + 1 = 1\n  · have : ((s.count : Int) + 1 = 1) := by omega\n    simp [hc, this]\n  · have : ¬ ((s.count : Int) + 1 = 1) := by omega\n    simp [hc, this]\n'),
+         varmap=_RC_VARS, ghost=_RC_GHOST, params=['count', 'opens', 'closes'], obligation='theorem genRcOpen_eq (s : RC) (h : Nat) :\n    ((s.step (.ropen h)).1.count : Int) = genRcOpenCount s.count s.opens s.closes ∧\n    ((s.step (.ropen h)).1.opens : Int) = genRcOpenOpens s.count s.opens s.closes ∧\n    (s.step (.ropen h)).1.closes = s.closes := by\n  unfold RC.step genRcOpenCount genRcOpenOpens\n  by_cases hc : s.count = 0\n  · simp [hc]\n  · have h1 : ¬ ((s.count : Int) + 1 = 1) := by omega\n    have h2 : ¬ (s.count + 1 = 1) := by omega\n    simp [hc, h1]\n'),
     dict(name='genRcCloseCount', file='scales/sink.py', func='RefCountedSink.Close', kind='final', var='self._ref_count',
          varmap=_RC_VARS, ghost=_RC_GHOST, params=['count', 'opens', 'closes'], obligation=''),
     dict(name='genRcCloseCloses', file='scales/sink.py', func='RefCountedSink.Close', kind='final', var='closes',
-         varmap=_RC_VARS, ghost=_RC_GHOST, params=['count', 'opens', 'closes'], obligation="theorem genRcClose_eq (s : RC) (h : Nat) :\n    ((s.step (.rclose h)).1.count : Int) = genRcCloseCount s.count s.opens s.closes ∧\n    ((s.step (.rclose h)).1.closes : Int) = genRcCloseCloses s.count s.opens s.closes ∧\n    (s.step (.rclose h)).1.opens = s.opens := by\n  unfold RC.step genRcCloseCount genRcCloseCloses\n  by_cases h0 : s.count = 0\n  · simp [h0]\n  · have h0' : ¬ ((s.count : Int) = 0) := by omega\n    by_cases h1 : s.count - 1 = 0\n    · have : ((s.count : Int) - 1 = 0) := by omega\n      simp [h0, h0', h1, this]\n    · have : ¬ ((s.count : Int) - 1 = 0) := by omega\n      simp [h0, h0', h1, this]; omega\n"),
+         varmap=_RC_VARS, ghost=_RC_GHOST, params=['count', 'opens', 'closes'], obligation="theorem genRcClose_eq (s : RC) (h : Nat) :\n    ((s.step (.rclose h)).1.count : Int) = genRcCloseCount s.count s.opens s.closes ∧\n    ((s.step (.rclose h)).1.closes : Int) = genRcCloseCloses s.count s.opens s.closes ∧\n    (s.step (.rclose h)).1.opens = s.opens := by\n  unfold RC.step genRcCloseCount genRcCloseCloses\n  by_cases h0 : s.count = 0\n  · simp [h0]\n  · have h0' : ¬ ((s.count : Int) = 0) := by omega\n    by_cases h1 : s.count = 1\n    · simp [h1]\n    · have h1' : ¬ ((s.count : Int) - 1 = 0) := by omega\n      have h1'' : ¬ (s.count - 1 = 0) := by omega\n      simp [h0, h0', h1', h1'']\n      omega\n"),
 ]
 TRUSTED = [
     'contract of an underlying sink as implemented by the harness sink (and by the socket transports and the '
